@@ -10,6 +10,21 @@ CLAIMED = {
          "Generated-input search with an independent reference engine: every case builds the same tables in vibesql and SQLite, renders one typed query in both dialects and compares multisets (sequences under a total ORDER BY). 40k cases quick / 1.5M thorough; regions with recorded defects are excluded by construction in 80% of the budget and classified by structural trigger in the rest.",
          "Trusts SQLite 3.46 as reference on the shared subset, the renderer's dialect mapping (NULLS LAST, booleans as 0/1) and the 25-line bag model (self-validated against SQLite on every distinct set operation). The columnar gate is forced off through the verif hook in the avoid budget; its agreement with the row path is C03's subject.",
          "DESIGN.md §6 C01"),
+ "C03": ("exploration",
+         "differential testing of one statement on two execution paths (verif hook forces the columnar gate off) plus a gate-dodging metamorphic rewrite, over generated tables and gate-eligible aggregate queries",
+         "Generated-input search: 300k (quick) / 8M (thorough) single-table aggregate queries the columnar gate accepts; each is run with the gate on, with the gate forced off, and as a rewrite the gate rejects; results must agree, COUNT must never be NULL. A hook counter proves the fast path really produced the answer (class floor 60%).",
+         "The row path is the reference (its own correctness is C07). Hook = two thread-locals in vibesql-executor behind cargo feature verif. Regions of the eight recorded columnar defects are excluded by construction in 80% of the budget.",
+         "DESIGN.md §6 C03"),
+ "C06": ("exploration",
+         "metamorphic testing: ternary-logic partitioning (TLP) and NoREC over generated schemas, data and predicates",
+         "Generated-input search with a metamorphic oracle that needs no expected output: Q must equal the disjoint union of Q AND p, Q AND NOT p, Q AND p IS NULL (plain, DISTINCT, JOIN ON, GROUP BY aggregates combined arithmetically, HAVING, ungrouped aggregates), and #rows WHERE p must equal #TRUE of SELECT p. 200k cases x 4 queries quick.",
+         "All four queries run on vibesql itself: a defect shifting all of them alike is invisible here (C01 covers it). Columnar gate forced off by hook while its findings are open.",
+         "DESIGN.md §6 C06"),
+ "C07": ("exploration",
+         "model-based testing: generated tables and aggregate queries checked against an executable definition of COUNT/SUM/AVG/MIN/MAX/DISTINCT/GROUP BY/HAVING written in the harness",
+         "Generated-input search against a reference model (i128 integer sums, f64 float sums with scaled tolerance, NULL groups, empty input): 300k cases quick / 8M thorough over both execution paths (hook-controlled).",
+         "Model grouping equality = documented SqlValue Eq (NULL=NULL, 0.0=-0.0). While the f32-precision findings are open, DOUBLE values come from an f32-exact pool in 80% of the budget.",
+         "DESIGN.md §6 C07"),
  "C21": ("exploration",
          "property-based testing (proptest choice tape): algebraic laws over generated SqlValue triples + documented interval model",
          "Generated-input search: millions of SqlValue triples biased to NaN/±0/inf/extreme ints/unit-converted intervals are checked against the Eq/Ord/Hash laws and an independent interval decomposition. Laws over three values are cheap and the taught pools cover every variant pair, so exploration is the right level; it does not show absence.",
